@@ -30,6 +30,7 @@ type FileManager struct {
 	patch map[string][]*plugin.Generated
 	index map[string]int
 	count map[string]int
+	alien map[string]bool // names of the form <base>_<n><ext> that were not produced by renaming
 	log   backend.LogFunc
 }
 
@@ -39,6 +40,7 @@ func NewFileManager(log backend.LogFunc) *FileManager {
 		patch: make(map[string][]*plugin.Generated),
 		index: make(map[string]int),
 		count: make(map[string]int),
+		alien: make(map[string]bool),
 		log:   log,
 	}
 }
@@ -83,9 +85,18 @@ FileLoop:
 					}
 					renamed = fmt.Sprintf("%s_%d%s", pth, cnt, ext)
 					if cnt > fm.count[name] {
-						break
+						if _, taken := fm.index[renamed]; !taken {
+							break
+						}
+						// the candidate name belongs to an unrelated file that was
+						// submitted under that very name: skip it for good.
+						fm.alien[renamed] = true
+						fm.count[name]++
+						cnt++
 					} else {
-						idx = fm.index[renamed]
+						if !fm.alien[renamed] {
+							idx = fm.index[renamed]
+						}
 						cnt++
 					}
 				}
